@@ -21,16 +21,25 @@ ClockDrift = DashOption(
     cgi_type='<seconds>',
     cgi_choices=(None, '10'))
 
+UTC_METHODS: tuple[str, ...] = ('direct', 'head', 'http-ntp', 'iso', 'ntp', 'sntp', 'xsd')
+
+def _utc_method_from_string(value: str) -> str | None:
+    method = DashOption.string_or_none(value)
+    if method is not None and method not in UTC_METHODS:
+        raise ValueError(f'Unknown time method: "{method}"')
+    return method
+
+
 UTCMethod = DashOption(
     usage=OptionUsage.MANIFEST,
     short_name='utc',
     full_name='utcMethod',
     title='UTC timing method',
     description='Select UTCTiming element method.',
-    from_string=DashOption.string_or_none,
+    from_string=_utc_method_from_string,
     input_type='select',
     cgi_name='time',
-    cgi_choices=(None, 'direct', 'head', 'http-ntp', 'iso', 'ntp', 'sntp', 'xsd'),
+    cgi_choices=(None,) + UTC_METHODS,
     featured=True)
 
 UTCValue = DashOption(
